@@ -2,7 +2,7 @@
    constructor and every in-place operation is the corresponding function on Z (taken from the
    specs of the owning areas).  Only the SYNTAX of constructors / operations is shared with the
    model (Hist.ctor, Hist.op); no model function is used here. *)
-From BigNum Require Import Base SpecAddSub SpecDiv SpecBits SpecBytes SpecSign Hist.
+From BigNum Require Import Base SpecAddSub SpecDiv SpecBits SpecBytes SpecSign SpecPow SpecGcd SpecRoots SpecRadix Hist.
 Open Scope Z_scope.
 
 (** value denoted by raw operand data (high zero digits and a NoSign request both mean what
@@ -62,6 +62,14 @@ Definition sstep (k : kind) (v : Z) (o : op) : outcome Z :=
   | ODivEuclid y => operand k y (fun b => match k with KU => spec_udiv v b | KI => spec_div_euclid v b end)
   | ORemEuclid y => operand k y (fun b => match k with KU => spec_urem v b | KI => spec_rem_euclid v b end)
   | ODivCeil y => operand k y (fun b => match k with KU => spec_udiv_ceil v b | KI => spec_idiv_ceil v b end)
+  | OMul y => operand k y (fun b => Ret (v * b))
+  | OMulS _ s => match k with KU => Ret (v * s) | KI => ill_s end
+  | OPow e => spec_upow v e
+  | OSqrt => match k with KU => spec_usqrt v | KI => spec_isqrt v end
+  | OCbrt => match k with KU => spec_ucbrt v | KI => spec_icbrt v end
+  | ONthRoot n => match k with KU => spec_unth_root v n | KI => spec_inth_root v n end
+  | OGcd y => operand k y (fun b => Ret (Z.gcd v b))
+  | OLcm y => operand k y (fun b => spec_lcm v b)
   end.
 
 (** number of 64-bit digits of the canonical representation *)
@@ -99,7 +107,7 @@ Definition sobserve_pair (a b : Z) : spair_obs :=
   mkSPO (a =? b) (a ?= b) (a =? b) (b <=? a) (a <=? b).
 
 (** per export (order of Hist.exports_u / Hist.exports_i): digit vectors and bytes are injective,
-    bits / count_ones / trailing_zeros are not *)
+    bits / count_ones / trailing_zeros are not; the last two are the decimal and hex text *)
 Definition opt_eqb (x y : option Z) : bool :=
   match x, y with Some a, Some b => a =? b | None, None => true | _, _ => false end.
 Definition sexports_eq (k : kind) (a b : Z) : list bool :=
@@ -107,8 +115,8 @@ Definition sexports_eq (k : kind) (a b : Z) : list bool :=
   let bits := spec_bits a =? spec_bits b in
   let tz := opt_eqb (spec_trailing_zeros a) (spec_trailing_zeros b) in
   match k with
-  | KU => [e; e; e; e; bits; spec_count_ones a =? spec_count_ones b; tz]
-  | KI => [e; e; e; e; e; e; bits; tz]
+  | KU => [e; e; e; e; bits; spec_count_ones a =? spec_count_ones b; tz; e; e]
+  | KI => [e; e; e; e; e; e; bits; tz; e; e]
   end.
 
 (** every export as a function of the integer alone *)
@@ -130,5 +138,6 @@ Definition sexport (k : kind) (e : export) (v : Z) : outcome (list Z) :=
   | KI, ESignedBe => Ret (spec_to_signed_bytes_be v)
   | KI, EBits => Ret [spec_bits v]
   | KI, ETrailingZeros => Ret (tz_list v)
+  | _, EText r => spec_to_str v r
   | _, _ => Panic (Internal 1400)
   end.
